@@ -1,6 +1,7 @@
 package cluster
 
 import (
+	"bytes"
 	"crypto/ed25519"
 	"encoding/json"
 	"fmt"
@@ -179,13 +180,31 @@ func runC08(w *World, tier string) (bool, interface{}) {
 	c.L.Faults.PermuteResults = true
 	members := AllMembers(n)
 	// junk and duplicates on the board
+	var roundsSeen []string
 	cnt := 0
 	w.Board.PreAppend = append(w.Board.PreAppend, func(m storage.Message, by int) {
 		if by < 0 || cnt >= 5 || m.Event == string(spf.EventInitProposal) || !w.Tape.Bool(1, 5, "junk?") {
 			return
 		}
 		cnt++
-		switch w.Tape.Choose(4, "junkKind") {
+		switch w.Tape.Choose(5, "junkKind") {
+		case 4:
+			// an authenticated participant broadcasts a "reconstructed signature" whose payload names
+			// another round than the envelope (state of a round may depend only on messages carrying its id)
+			other := strings.Repeat("ef", 32)
+			for _, r := range roundsSeen {
+				if r != m.DkgRoundID {
+					other = r
+				}
+			}
+			entry := []map[string]interface{}{{"File": "x", "BatchID": "crafted-batch", "MessageID": "crafted-msg", "SrcPayload": []byte("p"), "Signature": bytes.Repeat([]byte{7}, 96), "Username": w.Nodes[by].Name, "DKGRoundID": other}}
+			x := m
+			x.Event = "signature_reconstructed"
+			x.RecipientAddr = ""
+			x.Data, _ = json.Marshal(entry)
+			x.Signature = ed25519.Sign(w.Nodes[by].Priv, x.Bytes())
+			w.Board.InjectMsg(x, &Inject{Kind: "crafted-broadcast-naming-another-round"})
+			w.Stats.Fault("junk")
 		case 0:
 			w.Board.InjectMsg(m, &Inject{Kind: "duplicate"})
 			w.Stats.Fault("duplicate")
@@ -213,11 +232,13 @@ func runC08(w *World, tier string) (bool, interface{}) {
 		return false, nil
 	}
 	rounds := []string{round}
+	roundsSeen = append(roundsSeen, round)
 	if w.Tape.Bool(1, 2, "secondRound") {
 		c.L.RunUntil(func() bool { return false }, w.Tape.Choose(12*n, "gap"))
 		w.Advance(2e9)
 		if r2, rep2 := c.StartDKG(w.Tape.Choose(n, "proposer2"), 2+w.Tape.Choose(n-1, "t2"), members); rep2.OK() && r2 != round {
 			rounds = append(rounds, r2)
+			roundsSeen = append(roundsSeen, r2)
 			w.Stats.Fault("multi-round")
 		}
 	}
